@@ -62,11 +62,15 @@ def part(ctx):
                 if v != want:
                     prop_fail('convert:values', 'value at %d is %s, expected %s' % (j, v, want), pl)
                     break
-            nz = [j for j, v in ob['cnt'] if v != 0]
-            if nz != ob['idx']:
-                fpio.outside_domain(ctx, 'from_fingerprint:float-below-one-to-count',
-                                    'CountFingerprint.from_fingerprint(float fingerprint) truncates a value below 1 to a stored count 0: the position stays in indices but its value is zero',
-                                    pl)
+            # OUTCOME test of the listed finding: the result lists a position whose stored count is 0 (a float value in (0,1)
+            # truncated by int()); everything else about such a result is still compared above and against the model
+            zero_listed = [j for j, v in ob['cnt'] if v == 0 and j in ob['idx']]
+            if zero_listed:
+                ctx.fail('%s.from_fingerprint(%s fingerprint) lists position(s) %s with stored count 0: the non-zero position is kept in indices but its value is zero'
+                         % (k, oa['kind'], zero_listed[:5]), dict(pl, positions_with_stored_zero=zero_listed),
+                         finding_key='from_fingerprint:float-below-one-to-count', kind='property-on-implementation')
+                if not any(f.get('key') == 'from_fingerprint:float-below-one-to-count' and f.get('status') == 'known' for f in ctx.findings):
+                    found[0] = True
             # get_count agrees with the model on and off the support
             probes = (ob['idx'][:2] + [0, oa['bits'] - 1])[:4]
             for j in probes:
@@ -120,5 +124,5 @@ def part(ctx):
                                         {'a': xobs_json(oa), 'to': k, 'result': xobs_json(ro[1])})
     nbad = core.compare_cases(ctx, cases, IMPORTS, 'C17 fingerprint conversions', payloads, model_expr=mexpr,
                               finding_key_of=lambda k, pl: 'model:%s' % pl.get('section'))
-    ctx.assumptions += ['fingerprint conversions: sources are well-formed (positive counts); zero/negative counts (results of subtraction) and float values below 1 converted to counts are recorded as notes (see Proofs/FprintConv.v witnesses)']
+    ctx.assumptions += ['fingerprint conversions: the domain is well-formed sources (every listed position has a positive count). A float value in (0,1) converted to the count kind is inside the domain and is reported through the known-finding key from_fingerprint:float-below-one-to-count (outcome test: a listed position with stored count 0). Only sources that themselves hold zero or negative counts (results of subtraction; not "counts" of set bits) are outside the domain: what from_fingerprint does with them is compared with the model and recorded as an evidence note, not failed']
     return found[0] or nbad > 0
